@@ -10,6 +10,12 @@ TypeStr.vos TypeStr.vok TypeStr.required_vos: TypeStr.v /verif/coq/Base.vos /ver
 Typing.vo Typing.glob Typing.v.beautified Typing.required_vo: Typing.v /verif/coq/Base.vo /verif/coq/Layout.vo /verif/coq/Valid.vo /verif/coq/Types.vo Json.vo Forms.vo
 Typing.vio: Typing.v /verif/coq/Base.vio /verif/coq/Layout.vio /verif/coq/Valid.vio /verif/coq/Types.vio Json.vio Forms.vio
 Typing.vos Typing.vok Typing.required_vos: Typing.v /verif/coq/Base.vos /verif/coq/Layout.vos /verif/coq/Valid.vos /verif/coq/Types.vos Json.vos Forms.vos
+Proofs_Depth.vo Proofs_Depth.glob Proofs_Depth.v.beautified Proofs_Depth.required_vo: Proofs_Depth.v /verif/coq/Base.vo /verif/coq/Layout.vo /verif/coq/LayoutInd.vo /verif/coq/Valid.vo /verif/coq/Types.vo Json.vo Forms.vo
+Proofs_Depth.vio: Proofs_Depth.v /verif/coq/Base.vio /verif/coq/Layout.vio /verif/coq/LayoutInd.vio /verif/coq/Valid.vio /verif/coq/Types.vio Json.vio Forms.vio
+Proofs_Depth.vos Proofs_Depth.vok Proofs_Depth.required_vos: Proofs_Depth.v /verif/coq/Base.vos /verif/coq/Layout.vos /verif/coq/LayoutInd.vos /verif/coq/Valid.vos /verif/coq/Types.vos Json.vos Forms.vos
+Proofs_Types.vo Proofs_Types.glob Proofs_Types.v.beautified Proofs_Types.required_vo: Proofs_Types.v /verif/coq/Base.vo /verif/coq/Layout.vo /verif/coq/LayoutInd.vo /verif/coq/Valid.vo /verif/coq/Types.vo /verif/coq/Carry.vo Json.vo Forms.vo TypeStr.vo Proofs_Depth.vo
+Proofs_Types.vio: Proofs_Types.v /verif/coq/Base.vio /verif/coq/Layout.vio /verif/coq/LayoutInd.vio /verif/coq/Valid.vio /verif/coq/Types.vio /verif/coq/Carry.vio Json.vio Forms.vio TypeStr.vio Proofs_Depth.vio
+Proofs_Types.vos Proofs_Types.vok Proofs_Types.required_vos: Proofs_Types.v /verif/coq/Base.vos /verif/coq/Layout.vos /verif/coq/LayoutInd.vos /verif/coq/Valid.vos /verif/coq/Types.vos /verif/coq/Carry.vos Json.vos Forms.vos TypeStr.vos Proofs_Depth.vos
 Extract_C17.vo Extract_C17.glob Extract_C17.v.beautified Extract_C17.required_vo: Extract_C17.v /verif/coq/Layout.vo /verif/coq/Valid.vo /verif/coq/Types.vo /verif/coq/Carry.vo Json.vo Forms.vo TypeStr.vo Typing.vo
 Extract_C17.vio: Extract_C17.v /verif/coq/Layout.vio /verif/coq/Valid.vio /verif/coq/Types.vio /verif/coq/Carry.vio Json.vio Forms.vio TypeStr.vio Typing.vio
 Extract_C17.vos Extract_C17.vok Extract_C17.required_vos: Extract_C17.v /verif/coq/Layout.vos /verif/coq/Valid.vos /verif/coq/Types.vos /verif/coq/Carry.vos Json.vos Forms.vos TypeStr.vos Typing.vos
